@@ -44,10 +44,19 @@ def reset (m : Mgr Rat) : Mgr Rat :=
   let r := Gen.rtoManager_reset_Rat (m_srtt := m.srtt) (m_rttvar := m.rttvar) (m_rto := m.rto) (m_noUpdate := m.noUpdate)
   { m with srtt := r.m_srtt, rttvar := r.m_rttvar, rto := r.m_rto }
 
-/-- the manager after a sequence of round-trip samples -/
-def feed (m : Mgr Rat) : List Rat → Mgr Rat
+/-- what can happen to a manager in non-test code: a round-trip sample, or `reset()` -/
+inductive Op
+  | rtt (x : Rat)
+  | reset
+
+def apply (m : Mgr Rat) : Op → Mgr Rat
+  | .rtt x => (setNewRTT m x).1
+  | .reset => reset m
+
+/-- the manager after a sequence of samples / resets -/
+def run (m : Mgr Rat) : List Op → Mgr Rat
   | [] => m
-  | x :: xs => feed (setNewRTT m x).1 xs
+  | o :: os => run (apply m o) os
 
 end R
 
